@@ -139,10 +139,33 @@ func alphabet(names []string) []op {
 }
 
 func runSeq(run *vk.Run, seq []op, tag string) {
-	bus := ebu.New()
+	runSeqVia(run, seq, tag, false)
+	if len(seq) >= 2 && seq[0].K == "reg" {
+		runSeqVia(run, seq, tag+"-opt", true)
+	}
+}
+
+// runSeqVia: with viaOptions the leading run of registrations is given to New as WithUpcast options
+// (which drop the error: a rejected registration simply has no effect), the rest through the API.
+func runSeqVia(run *vk.Run, seq []op, tag string, viaOptions bool) {
 	g := graph{}
+	lead := 0
+	var opts []ebu.Option
+	if viaOptions {
+		for lead < len(seq)-1 && seq[lead].K == "reg" {
+			o := seq[lead]
+			to := o.To
+			opts = append(opts, ebu.WithUpcast(o.From, o.To, func(d json.RawMessage) (json.RawMessage, string, error) { return d, to, nil }))
+			g.step(o)
+			lead++
+		}
+	}
+	bus := ebu.New(opts...)
 	rejectedByReach := false
 	for i, o := range seq {
+		if i < lead {
+			continue
+		}
 		before := g.clone()
 		want := g.step(o)
 		got := apply(bus, o)
@@ -191,11 +214,15 @@ func TestC16Sequences(t *testing.T) {
 	run.Count("exhaustive_sequences", int64(idx))
 	run.Exhaustive(true)
 	// PRNG sequences of length <= 12 over 5 names (valid registrations favoured so that graphs grow)
-	n := run.Scale(3000, 80000)
+	n := run.Scale(8000, 120000)
 	names5 := []string{"A", "B", "C", "D", "E"}
 	for i := 0; i < n; i++ {
 		r := run.Rand(uint64(i))
 		var seq []op
+		names5 := names5
+		if i%2 == 0 {
+			names5 = []string{"A", "B", "C", "A", "B"} // few names: shared targets, clears and back edges collide
+		}
 		for k := 1 + r.IntN(12); k > 0; k-- {
 			switch x := r.IntN(20); {
 			case x < 15:
